@@ -172,7 +172,7 @@ outer:
 		hops := 1
 		finish := false
 		for !finish {
-			if hops >= ttl {
+			if hops > ttl {
 				m.Free()
 				continue outer
 			}
